@@ -25,12 +25,15 @@ def run(chk):
         dict(flavour="asan-ubsan", scen="incr", runs=(600, 20000), opts={"maxNets": 14, "varyScale": 1, "maxMovable": 9}),
         dict(flavour="rel", scen="det", runs=(300, 8000), opts={"cb": 1, "maxNets": 14, "varyScale": 1}),
         dict(flavour="rel", scen="incr", runs=(400, 10000), opts={"maxNets": 14, "maxMovable": 9, "translate": 1}),
+        # histories of the public mutators: hpwl(), placedWidth/Height of the state the calls define (abstract data type in PlaceAPI.tla)
+        dict(flavour="asan-ubsan", exe="record_proto", scen="api", runs=(300, 8000), opts={}),
     ]
     run_plan(chk, "C09", plan, nontrivial)
     chk.cov["rule"] = ("(a) every orientation x w,h in 1..3 x pin offset in -1..4 (exhaustive); (b) every update history of the IncrHpwl spec scope "
                        "(netlists of up to 2 of 8 net shapes incl. repeated cells/empty/single-pin nets, 5 subsets, 3 orientation vectors, both axes) "
                        "replayed into real IncrNetModel objects; (c) seeded random circuits: incremental models under random updates and every "
-                       "event of placeDetailed traces, wirelength recomputed by TLC through the generator-based orientation algebra; "
+                       "event of placeDetailed traces, wirelength recomputed by TLC through the generator-based orientation algebra; (d) random histories of the "
+                       "14 public mutators of Circuit with logged arguments (valid and invalid): TLC computes the state the calls define and compares hpwl() and the placed sizes; "
                        "non-trivial random case = has nets and a non-N orientation; replayed spec cases all count as distinct")
     chk.cov["exhaustive"] = False
     return chk.finish()
